@@ -102,6 +102,7 @@ void World::enqueue(int idx) {
     reqObj[idx] = new TReq(this, idx, masters[idx], sc.reqs[idx].kind == 1, sc.reqs[idx].restarts);
   }
   reqState[idx] = 1;
+  collected[idx] = 0;
   evEnqueue(idx);
   result_t r = h->addRequest(reqObj[idx], false);
   if (r != RESULT_OK) {  // refused (read-only): never in flight
@@ -125,9 +126,30 @@ void World::advanceScript() {
   if (seg >= active->size()) { active = nullptr; exchange = false; return; }
   awaitLeft = (*active)[seg].await ? (*active)[seg].n : 0;
 }
-void World::abortScript() { active = nullptr; exchange = false; }
+void World::abortScript() { active = nullptr; exchange = false; pickResponder = false; }
+
+void World::chooseResponder(uint8_t zz) {
+  pickResponder = false;
+  for (size_t i = 0; i < sc.reqs.size(); i++) {
+    if (sc.reqs[i].master[0] == wonAddr && sc.reqs[i].master[1] == zz) {
+      startScript(&sc.reqs[i].responder);
+      exchange = active != nullptr;
+      return;
+    }
+  }
+  exchange = false;
+}
+
+int World::reqIndexOf(BusRequest* r) {
+  const MasterSymbolString& m = r->getMaster();
+  for (size_t i = 0; i < sc.reqs.size(); i++) {
+    if (sc.reqs[i].master.size() == m.size() && memcmp(sc.reqs[i].master.data(), m.data(), m.size()) == 0) return (int)i;
+  }
+  return -1;
+}
 
 bool World::allDone() {
+  if (externalBusy) return false;
   for (size_t i = 0; i < reqState.size(); i++) if (reqState[i] == 1) return false;
   if (h->m_currentRequest != nullptr) return false;
   if (h->m_nextRequests.peek() != nullptr) return false;
@@ -189,6 +211,7 @@ result_t World::onWrite(const uint8_t* data, size_t len) {
       uint8_t v = data[i];
       // a non-SYN write directly after a delivered lone SYN outside an own exchange is the arbitration slot
       if (echoQ.empty() && lastSyn && !exchange && v != ref::SYN && tr->m_buf.empty()) arbSlot = true;
+      if (pickResponder) chooseResponder(v);
       echoQ.push_back(v);
       evWrite(v);
     }
@@ -200,7 +223,7 @@ result_t World::onWrite(const uint8_t* data, size_t len) {
     uint8_t d = (uint8_t)(((data[0] & 3) << 6) | (data[1] & 0x3f));
     switch (cmd) {
       case 0: enhInitPending = true; note("ENH INIT"); break;
-      case 1: echoQ.push_back(d); evWrite(d); break;
+      case 1: if (pickResponder) chooseResponder(d); echoQ.push_back(d); evWrite(d); break;
       case 2:
         evArb(d);
         if (d == ref::SYN) { enhArmed = -1; if (arbSlot && !echoQ.empty()) { echoQ.pop_front(); arbSlot = false; } }
@@ -219,8 +242,9 @@ result_t World::onWrite(const uint8_t* data, size_t len) {
 void World::housekeeping() {
   // waiter emulation: take finished waited requests out of the finished queue, maybe re-submit
   for (size_t i = 0; i < reqObj.size(); i++) {
-    if (reqObj[i] == nullptr || sc.reqs[i].kind != 0 || reqState[i] != 2) continue;
-    if (h->m_finishedRequests.remove(reqObj[i], false)) {
+    if (reqObj[i] == nullptr || sc.reqs[i].kind != 0 || reqState[i] != 2 || sc.reqs[i].external) continue;
+    if (!collected[i] && h->m_finishedRequests.remove(reqObj[i], false)) {
+      collected[i] = 1;
       int res = lastResult[i];
       if (res != RESULT_OK && res != RESULT_ERR_NO_SIGNAL && res != RESULT_ERR_SEND && res != RESULT_ERR_DEVICE
           && resubmitsLeft[i] > 0) {
@@ -235,6 +259,7 @@ void World::housekeeping() {
 
 World::Def World::nextDefault(bool) {
   if (!echoQ.empty()) return Def{D_ECHO, echoQ.front()};
+  if (pickResponder) return Def{D_SILENCE, 0};  // ebusd owns the bus after the won arbitration
   if (active != nullptr) {
     const Seg& s = (*active)[seg];
     if (s.await) return Def{D_SILENCE, 0};
@@ -253,8 +278,8 @@ World::Def World::nextDefault(bool) {
   return Def{D_END, 0};
 }
 
-void World::endRun() {
-  if (!ended) {
+void World::endRun(bool natural) {
+  if (!ended && natural) {
     for (auto m : mons) m->onEnd();
   }
   ended = true;
@@ -287,11 +312,11 @@ uint64_t World::stateHash() {
   // queue contents in order
   {
     pthread_mutex_lock(&h->m_nextRequests.m_mutex);
-    for (BusRequest* r : h->m_nextRequests.m_queue) { put(static_cast<TReq*>(r)->m_idx + 1, 1); put(r->m_busLostRetries, 1); }
+    for (BusRequest* r : h->m_nextRequests.m_queue) { put(reqIndexOf(r) + 1, 1); put(r->m_busLostRetries, 1); }
     pthread_mutex_unlock(&h->m_nextRequests.m_mutex);
     put(0xfe, 1);
     pthread_mutex_lock(&h->m_finishedRequests.m_mutex);
-    for (BusRequest* r : h->m_finishedRequests.m_queue) put(static_cast<TReq*>(r)->m_idx + 1, 1);
+    for (BusRequest* r : h->m_finishedRequests.m_queue) put(reqIndexOf(r) + 1, 1);
     pthread_mutex_unlock(&h->m_finishedRequests.m_mutex);
   }
   BaseDevice* d = static_cast<BaseDevice*>(h->m_device);
@@ -318,17 +343,25 @@ uint64_t World::stateHash() {
   put(echoQ.size(), 1); for (uint8_t v : echoQ) put(v, 1);
   put(arbSlot | (lastSyn << 1) | (exchange << 2) | (enhInitPending << 3) | (hasPendingSecond << 4), 1); put(enhArmed + 1, 2); put(tail, 1); put(drainLeft, 1);
   if (hasPendingSecond) put(pendingSecond, 1);
+  put(arbLost, 1); put(silencesDone, 1); put(externalBusy, 1); put(pickResponder, 1); put(wonAddr, 1);
+  if (sc.silenceAtRead > 0) put(reads, 2);
   for (size_t i = 0; i < reqState.size(); i++) {
     put(reqState[i], 1); put(resubmitsLeft[i], 1);
     put(reqObj[i] != nullptr ? reqObj[i]->m_restarts + 1 : 0, 1);
     put(reqObj[i] != nullptr ? reqObj[i]->m_busLostRetries : 0, 1);
-    put((uint64_t)(lastResult[i] + 64), 1);
+    put((uint64_t)(lastResult[i] + 64), 1); put(collected[i], 1);
   }
   for (auto m : mons) m->fingerprint(&s);
   return vp::fnv(s);
 }
 
 void World::run() {
+  setup();
+  h->run();
+  teardown();
+}
+
+void World::setup() {
   vp::vclockReset();
   TReq::s_live = 0;
   ebus_protocol_config_t cfg;
@@ -357,6 +390,7 @@ void World::run() {
   reqState.assign(sc.reqs.size(), 0);
   resubmitsLeft.assign(sc.reqs.size(), 0);
   lastResult.assign(sc.reqs.size(), 1);
+  collected.assign(sc.reqs.size(), 0);
   for (size_t i = 0; i < sc.reqs.size(); i++) {
     for (uint8_t b : sc.reqs[i].master) masters[i].push_back(b);
     resubmitsLeft[i] = sc.reqs[i].resubmits;
@@ -364,9 +398,11 @@ void World::run() {
   h->m_running = true;
   tr->m_valid = true;
   if (sc.enhanced) dev->open();  // sends the INIT request like the daemon does at start-up
-  for (size_t i = 0; i < sc.reqs.size(); i++) if (!sc.reqs[i].late) enqueue((int)i);
-  h->run();
-  if (!ended) endRun();
+  for (size_t i = 0; i < sc.reqs.size(); i++) if (!sc.reqs[i].late && !sc.reqs[i].external) enqueue((int)i);
+}
+
+void World::teardown() {
+  if (!ended) endRun(false);
   // hand back everything still referenced by the handler, then destroy
   while (h->m_finishedRequests.pop() != nullptr) {}
   while (h->m_nextRequests.pop() != nullptr) {}
@@ -381,6 +417,7 @@ void World::run() {
 
 result_t World::onRead(unsigned int timeout) {
   reads++;
+  if (readHook) readHook();
   if (!ended) for (auto m : mons) m->onQuiescent(!tr->m_buf.empty());
   if (!ended) housekeeping();
   int lat = (int)tr->getLatency();
@@ -388,7 +425,7 @@ result_t World::onRead(unsigned int timeout) {
   if (ended) return endTimeout();
   if (++steps > STEP_CAP) {
     capHit = true;
-    endRun();
+    endRun(false);
     return endTimeout();
   }
   if (hasPendingSecond) {  // second half of a split two-byte frame
@@ -457,19 +494,29 @@ result_t World::onRead(unsigned int timeout) {
     for (size_t i = 0; i < sc.reqs.size(); i++) if (sc.reqs[i].late && reqState[i] == 0) alts.push_back(Alt{ENQ, (int)i, K_REQ});
 
     if (ex.useHash && !ex.replaying() && !ex.checkpoint(stateHash())) {
-      endRun();
+      endRun(false);
       return endTimeout();
     }
     static thread_local std::vector<uint8_t> kinds;
     kinds.clear();
     for (auto& a : alts) kinds.push_back(a.kind);
-    Alt ch = alts[ex.choose((int)alts.size(), kinds.data())];
+    Alt ch = alts[0];
+    if (d.k == D_ECHO && arbSlot && sc.loseArbitrations > arbLost) {
+      arbLost++;
+      ch = Alt{LOSE_QUIET, sc.scriptedContender, 0};  // scripted environment behaviour, not a choice
+    } else if (sc.silenceAtRead > 0 && reads == sc.silenceAtRead && silencesDone < 2) {
+      silencesDone++;
+      reads--;  // stay at this read index for the second long silence
+      ch = Alt{LONGSILENCE, 0, 0};
+    } else {
+      ch = alts[ex.choose((int)alts.size(), kinds.data())];
+    }
 
     auto doTimeout = [&](int extra) {
       int ms = (int)timeout + lat + extra;
       vp::vclockAdvanceMs(ms);
       evTimeout(ms);
-      if (active != nullptr) abortScript();
+      if (active != nullptr || pickResponder) abortScript();
       lastSyn = false;
       return RESULT_ERR_TIMEOUT;
     };
@@ -490,12 +537,10 @@ result_t World::onRead(unsigned int timeout) {
       if (wasArb) {
         if (got == sent) {
           // ebusd wins: the addressed participant's behaviour becomes the active script
-          BusRequest* r = h->m_nextRequests.peek();
-          if (r != nullptr) {
-            int idx = static_cast<TReq*>(r)->m_idx;
-            startScript(&sc.reqs[idx].responder);
-            exchange = active != nullptr;
-          }
+          // the addressed participant is identified by the ZZ symbol ebusd sends next
+          pickResponder = true;
+          wonAddr = got;
+          exchange = true;
           deliverSym(got, sc.enhanced ? 1 : 0);
         } else {
           deliverSym(got, sc.enhanced ? 2 : 0);
